@@ -200,6 +200,9 @@ def commitTsOf (d : Db) (mts : Nat) : Nat := if d.opts.managed then mts else d.n
 
 def keepTogetherOf (t : TxnM) : Bool := (t.pending ++ t.dups).all (·.ver == 0)
 
+/-- `commitPrecheck` looks at `pendingWrites` only -/
+def keepPreOf (t : TxnM) : Bool := t.pending.all (·.ver == 0)
+
 /-- what `commitAndSend` + `writeToLSM` make of one entry of the transaction -/
 def finEnt (d : Db) (keep : Bool) (cts : Nat) (e : Ent) : Ent :=
   let e := if e.ver == 0 then { e with ver := cts } else e
@@ -213,7 +216,7 @@ def commitEntries (d : Db) (t : TxnM) (cts : Nat) : List Ent :=
 /-- the guard under which `commit` reaches the write path -/
 def commitGoes (d : Db) (t : TxnM) (mts : Nat) : Bool :=
   !t.pending.isEmpty && !t.discarded &&
-    !(keepTogetherOf t && d.opts.managed && mts == 0) &&
+    !(keepPreOf t && d.opts.managed && mts == 0) &&
     !(d.opts.detectConflicts && d.hasConflict t)
 
 theorem commit_none {d : Db} {id : Nat} (mts : Nat) (h : d.findTxn id = none) :
@@ -236,7 +239,7 @@ theorem commit_eq {d : Db} {id : Nat} {t : TxnM} (mts : Nat) (h : d.findTxn id =
     d.commit id mts =
       if t.pending.isEmpty then (d.discardTxn id, .noop)
       else if t.discarded then (d, .err "err:discarded")
-      else if keepTogetherOf t && d.opts.managed && mts == 0 then (d, .err "err:zerocommitts")
+      else if keepPreOf t && d.opts.managed && mts == 0 then (d, .err "err:zerocommitts")
       else if d.opts.detectConflicts && d.hasConflict t then (d.discardTxn id, .conflict)
       else commitApply d t id mts := by
   unfold Db.commit commitApply
@@ -795,6 +798,10 @@ theorem modify_opts (d : Db) (id : Nat) (e : Ent) : (d.modify id e).1.opts = d.o
   cases h : d.findTxn id with
   | none => rw [modify_none e h]
   | some t => rcases modify_shape e h with h1 | ⟨t', -, h1⟩ <;> rw [h1] <;> rfl
+theorem modify_now (d : Db) (id : Nat) (e : Ent) : (d.modify id e).1.now = d.now := by
+  cases h : d.findTxn id with
+  | none => rw [modify_none e h]
+  | some t => rcases modify_shape e h with h1 | ⟨t', -, h1⟩ <;> rw [h1] <;> rfl
 theorem modify_lsm (d : Db) (id : Nat) (e : Ent) : (d.modify id e).1.lsm = d.lsm := by
   cases h : d.findTxn id with
   | none => rw [modify_none e h]
@@ -1074,5 +1081,867 @@ def seekFrom (merged : List Ent) (rev : Bool) (readTs : Nat) (key : Bytes) : Lis
 theorem seekList_eq (merged : List Ent) (o : IterOpts) (readTs : Nat) (seek : Option Bytes) :
     seekList merged o readTs seek = seekFrom merged o.reverse readTs (seekKeyOf o seek) := rfl
 
+
+
+/-! ## generic facts on lists sorted by a strict order -/
+
+section Generic
+variable {α : Type} {R : α → α → Prop}
+
+/-- two sublists of a duplicate-free sorted list with the same members are equal -/
+theorem sublist_ext_of_pairwise (hirr : ∀ a, ¬ R a a) {m l1 l2 : List α} (hm : m.Pairwise R)
+    (h1 : l1.Sublist m) (h2 : l2.Sublist m) (h : ∀ x, x ∈ l1 ↔ x ∈ l2) : l1 = l2 := by
+  induction m generalizing l1 l2 with
+  | nil =>
+    rw [List.sublist_nil.mp h1, List.sublist_nil.mp h2]
+  | cons a m ih =>
+    rw [List.pairwise_cons] at hm
+    have ha : a ∉ m := fun hmem => hirr a (hm.1 a hmem)
+    have key : ∀ {l : List α}, l.Sublist (a :: m) → (l.Sublist m ∧ a ∉ l) ∨
+        (∃ l', l = a :: l' ∧ l'.Sublist m) := by
+      intro l hl
+      cases hl with
+      | cons _ h => exact .inl ⟨h, fun hal => ha (h.subset hal)⟩
+      | cons_cons _ h => exact .inr ⟨_, rfl, h⟩
+    rcases key h1 with ⟨s1, n1⟩ | ⟨l1', rfl, s1⟩ <;> rcases key h2 with ⟨s2, n2⟩ | ⟨l2', rfl, s2⟩
+    · exact ih hm.2 s1 s2 h
+    · exact absurd ((h a).mpr (List.mem_cons_self ..)) n1
+    · exact absurd ((h a).mp (List.mem_cons_self ..)) n2
+    · congr 1
+      apply ih hm.2 s1 s2
+      intro x
+      constructor
+      · intro hx
+        have := (h x).mp (List.mem_cons_of_mem _ hx)
+        rcases List.mem_cons.mp this with rfl | h'
+        · exact absurd (s1.subset hx) ha
+        · exact h'
+      · intro hx
+        have := (h x).mpr (List.mem_cons_of_mem _ hx)
+        rcases List.mem_cons.mp this with rfl | h'
+        · exact absurd (s2.subset hx) ha
+        · exact h'
+
+/-- `dropWhile` by a downward-closed predicate on a sorted list keeps exactly the members
+    that fail it -/
+theorem mem_dropWhile_of_pairwise {m : List α} (hm : m.Pairwise R) (p : α → Bool)
+    (hp : ∀ a b, R a b → p b = true → p a = true) (x : α) :
+    x ∈ m.dropWhile p ↔ x ∈ m ∧ p x = false := by
+  induction m with
+  | nil => simp
+  | cons a m ih =>
+    rw [List.pairwise_cons] at hm
+    rw [List.dropWhile_cons]
+    by_cases hpa : p a = true
+    · simp only [hpa, if_true, ih hm.2, List.mem_cons]
+      constructor
+      · rintro ⟨h1, h2⟩; exact ⟨.inr h1, h2⟩
+      · rintro ⟨h1 | h1, h2⟩
+        · subst h1; rw [hpa] at h2; cases h2
+        · exact ⟨h1, h2⟩
+    · simp only [hpa, Bool.false_eq_true, if_false, List.mem_cons]
+      have hpa' : p a = false := by simpa using hpa
+      constructor
+      · rintro (h1 | h1)
+        · subst h1; exact ⟨.inl rfl, hpa'⟩
+        · refine ⟨.inr h1, ?_⟩
+          cases hx : p x with
+          | false => rfl
+          | true => rw [hp a x (hm.1 x h1) hx] at hpa'; cases hpa'
+      · rintro ⟨h1, _⟩; exact h1
+
+/-- `takeWhile` on a sorted list keeps the members all of whose predecessors (and themselves)
+    satisfy the predicate -/
+theorem mem_takeWhile_of_pairwise (hirr : ∀ a, ¬ R a a) (htr : ∀ a b c, R a b → R b c → R a c)
+    {m : List α} (hm : m.Pairwise R) (q : α → Bool) (x : α) :
+    x ∈ m.takeWhile q ↔ x ∈ m ∧ ∀ y ∈ m, (y = x ∨ R y x) → q y = true := by
+  induction m with
+  | nil => simp
+  | cons a m ih =>
+    rw [List.pairwise_cons] at hm
+    have ha : a ∉ m := fun hmem => hirr a (hm.1 a hmem)
+    rw [List.takeWhile_cons]
+    by_cases hqa : q a = true
+    · simp only [hqa, if_true, List.mem_cons, ih hm.2]
+      constructor
+      · rintro (h1 | ⟨h1, h2⟩)
+        · subst h1
+          refine ⟨.inl rfl, ?_⟩
+          intro y hy hyx
+          rcases hy with rfl | hy
+          · exact hqa
+          · rcases hyx with rfl | hyx
+            · exact absurd hy ha
+            · exact absurd (htr _ _ _ hyx (hm.1 y hy)) (hirr y)
+        · refine ⟨.inr h1, ?_⟩
+          intro y hy hyx
+          rcases hy with rfl | hy
+          · exact hqa
+          · exact h2 y hy hyx
+      · rintro ⟨h1 | h1, h2⟩
+        · exact .inl h1
+        · exact .inr ⟨h1, fun y hy hyx => h2 y (.inr hy) hyx⟩
+    · simp only [hqa, Bool.false_eq_true, if_false, List.not_mem_nil, false_iff, List.mem_cons, not_and]
+      intro h1 h2
+      rcases h1 with rfl | h1
+      · exact hqa (h2 x (.inl rfl) (.inl rfl))
+      · exact hqa (h2 a (.inl rfl) (.inr (hm.1 x h1)))
+
+end Generic
+
+
+/-! ## specification of user-level scans -/
+
+/-- the version window of a scan: `ver ≤ readTs`, and `since < ver` when `since > 0` -/
+def inWindow (readTs since : Nat) (e : Ent) : Bool :=
+  decide (e.ver ≤ readTs) && (since == 0 || decide (since < e.ver))
+
+/-- the newest version of `k` inside the window, over the whole merged stream -/
+def newestVisible (merged : List Ent) (readTs since : Nat) (k : Bytes) : Option Ent :=
+  newestLE (merged.filter (inWindow readTs since)) k readTs
+
+/-- what a scan yields of an entry: it must be the newest in-window version of its key, and live -/
+def yieldable (merged : List Ent) (readTs since now : Nat) (e : Ent) : Bool :=
+  decide (newestVisible merged readTs since e.key = some e) && !deletedOrExpired e.emeta e.exp now
+
+/-- forward scan: from the first key `≥ seekKey`, while the keys have the prefix: each key's
+    newest in-window version, unless dead — in stream (ascending key) order. -/
+def specScanFwd (merged : List Ent) (readTs since now : Nat) (pfx seekKey : Bytes) : List Ent :=
+  ((merged.dropWhile (fun e => cmpBytes e.key seekKey == .lt)).takeWhile
+    (fun e => pfx.isPrefixOf e.key)).filter (yieldable merged readTs since now)
+
+/-- reverse scan: descending from the last key `≤ seekKey` (an empty seek key = from the end). -/
+def specScanRev (merged : List Ent) (readTs since now : Nat) (seekKey : Bytes) : List Ent :=
+  (if seekKey.isEmpty then merged.reverse
+   else merged.reverse.dropWhile (fun e => cmpBytes e.key seekKey == .gt)).filter
+    (yieldable merged readTs since now)
+
+/-- `AllVersions`: every entry of the stream inside the window, in stream order -/
+def specAllVersions (stream : List Ent) (readTs since : Nat) : List Ent :=
+  stream.filter (inWindow readTs since)
+
+/-- `parseItem`'s version test is the window -/
+theorem skip_eq_not_inWindow (o : IterOpts) (readTs : Nat) (e : Ent) :
+    (decide (e.ver > readTs) || decide (o.sinceTs > 0) && decide (e.ver ≤ o.sinceTs)) =
+      !inWindow readTs o.sinceTs e := by
+  unfold inWindow
+  have e1 : decide (e.ver ≤ readTs) = !decide (e.ver > readTs) := by
+    by_cases h : e.ver ≤ readTs
+    · have : ¬ e.ver > readTs := by omega
+      simp [h, this]
+    · have : e.ver > readTs := by omega
+      simp [h, this]
+  have e2 : (o.sinceTs == 0) = !decide (o.sinceTs > 0) := by
+    by_cases h : o.sinceTs = 0
+    · simp [h]
+    · have : o.sinceTs > 0 := by omega
+      simp [h, this]
+  have e3 : decide (o.sinceTs < e.ver) = !decide (e.ver ≤ o.sinceTs) := by
+    by_cases h : o.sinceTs < e.ver
+    · have : ¬ e.ver ≤ o.sinceTs := by omega
+      simp [h, this]
+    · have : e.ver ≤ o.sinceTs := by omega
+      simp [h, this]
+  rw [e1, e2, e3]
+  cases decide (e.ver > readTs) <;> cases decide (o.sinceTs > 0) <;> cases decide (e.ver ≤ o.sinceTs) <;> rfl
+
+/-- no entry of the list is hidden as an internal key -/
+def NoHidden (o : IterOpts) (l : List Ent) : Prop :=
+  o.internalAccess = true ∨ ∀ e ∈ l, badgerPrefix.isPrefixOf e.ikey = false
+
+theorem NoHidden.tail {o : IterOpts} {e : Ent} {l : List Ent} (h : NoHidden o (e :: l)) : NoHidden o l := by
+  rcases h with h | h
+  · exact .inl h
+  · exact .inr (fun x hx => h x (List.mem_cons_of_mem _ hx))
+
+theorem NoHidden.head {o : IterOpts} {e : Ent} {l : List Ent} (h : NoHidden o (e :: l)) :
+    (!o.internalAccess && List.isPrefixOf badgerPrefix e.ikey) = false := by
+  rcases h with h | h
+  · simp [h]
+  · simp [h e (List.mem_cons_self ..)]
+
+theorem NoHidden.sublist {o : IterOpts} {l l' : List Ent} (h : NoHidden o l) (hs : l'.Sublist l) :
+    NoHidden o l' := by
+  rcases h with h | h
+  · exact .inl h
+  · exact .inr (fun x hx => h x (hs.subset hx))
+
+/-! ### `AllVersions` -/
+
+theorem parseItems_all (o : IterOpts) (readTs now : Nat) (hall : o.allVersions = true)
+    (fuel : Nat) (lk : Option Bytes) (l : List Ent) (hf : l.length ≤ fuel) (hn : NoHidden o l) :
+    parseItems o readTs now fuel lk l =
+      (if o.reverse then l else l.takeWhile (fun e => o.prefix_.isPrefixOf e.key)).filter
+        (inWindow readTs o.sinceTs) := by
+  induction l generalizing fuel with
+  | nil => cases fuel <;> simp [parseItems]
+  | cons e rest ih =>
+    cases fuel with
+    | zero => simp at hf
+    | succ f =>
+      have hf' : rest.length ≤ f := by simpa using hf
+      rw [parseItems.eq_3]
+      simp only [hn.head, skip_eq_not_inWindow, hall, Bool.false_eq_true, if_false, if_true]
+      have ih' := ih f hf' hn.tail
+      cases hr : o.reverse
+      · rw [hr] at ih'
+        simp only [Bool.not_false, Bool.true_and, Bool.false_eq_true, if_false] at ih' ⊢
+        by_cases hp : List.isPrefixOf o.prefix_ e.key = true
+        · simp only [hp, Bool.not_true, Bool.and_false, Bool.false_eq_true, if_false,
+            List.takeWhile_cons, if_true, List.filter_cons]
+          by_cases hw : inWindow readTs o.sinceTs e = true
+          · simp only [hw, Bool.not_true, Bool.false_eq_true, if_false, if_true, ih']
+          · simp only [hw, Bool.not_false, if_true, ih', Bool.false_eq_true, if_false]
+        · have hpe : o.prefix_.isEmpty = false := by
+            cases hpp : o.prefix_ with
+            | nil => rw [hpp] at hp; simp at hp
+            | cons a b => rfl
+          simp only [hpe, hp, Bool.not_false, Bool.and_self, if_true, List.takeWhile_cons,
+            Bool.false_eq_true, if_false, List.filter_nil]
+      · rw [hr] at ih'
+        simp only [Bool.not_true, Bool.false_and, Bool.false_eq_true, if_false, if_true] at ih' ⊢
+        by_cases hw : inWindow readTs o.sinceTs e = true
+        · simp only [hw, Bool.not_true, Bool.false_eq_true, if_false, List.filter_cons, if_true, ih']
+        · simp at hw; simp [hw, ih']
+
+
+/-! ### forward scan -/
+
+/-- the forward `parseItem` loop on a stream that was already cut at the prefix boundary and
+    filtered by the window: skip the versions of `lastKey`, take the first entry of every other
+    key, yield it if it is live. -/
+def fwdCore (now : Nat) : Option Bytes → List Ent → List Ent
+  | _, [] => []
+  | lk, e :: r =>
+    if lk == some e.key then fwdCore now lk r
+    else if deletedOrExpired e.emeta e.exp now then fwdCore now (some e.key) r
+    else e :: fwdCore now (some e.key) r
+
+theorem parseItems_fwd (o : IterOpts) (readTs now : Nat) (hall : o.allVersions = false)
+    (hrev : o.reverse = false) (fuel : Nat) (lk : Option Bytes) (l : List Ent)
+    (hf : l.length ≤ fuel) (hn : NoHidden o l) :
+    parseItems o readTs now fuel lk l =
+      fwdCore now lk ((l.takeWhile (fun e => o.prefix_.isPrefixOf e.key)).filter
+        (inWindow readTs o.sinceTs)) := by
+  induction l generalizing fuel lk with
+  | nil => cases fuel <;> simp [parseItems, fwdCore]
+  | cons e rest ih =>
+    cases fuel with
+    | zero => simp at hf
+    | succ f =>
+      have hf' : rest.length ≤ f := by simpa using hf
+      rw [parseItems.eq_3]
+      simp only [hn.head, skip_eq_not_inWindow, hall, hrev, Bool.false_eq_true, if_false, if_true,
+        Bool.not_false, Bool.true_and]
+      by_cases hp : List.isPrefixOf o.prefix_ e.key = true
+      · simp only [hp, Bool.not_true, Bool.and_false, Bool.false_eq_true, if_false,
+          List.takeWhile_cons, if_true, List.filter_cons]
+        by_cases hw : inWindow readTs o.sinceTs e = true
+        · simp only [hw, Bool.not_true, Bool.false_eq_true, if_false, if_true, fwdCore]
+          by_cases h1 : (lk == some e.key) = true
+          · simp only [h1, if_true]; exact ih f lk hf' hn.tail
+          · simp only [h1, Bool.false_eq_true, if_false]
+            by_cases h2 : deletedOrExpired e.emeta e.exp now = true
+            · simp only [h2, if_true]; exact ih f _ hf' hn.tail
+            · simp only [h2, Bool.false_eq_true, if_false]; rw [ih f _ hf' hn.tail]
+        · simp only [hw, Bool.not_false, if_true, Bool.false_eq_true, if_false]
+          exact ih f lk hf' hn.tail
+      · have hpe : o.prefix_.isEmpty = false := by
+          cases hpp : o.prefix_ with
+          | nil => rw [hpp] at hp; simp at hp
+          | cons a b => rfl
+        simp only [hpe, hp, Bool.not_false, Bool.and_self, if_true, List.takeWhile_cons,
+          Bool.false_eq_true, if_false, List.filter_nil, fwdCore]
+
+/-- on a sorted stream whose keys are all `≥ lastKey`, the loop is a filter: an entry is
+    yielded iff its key is not `lastKey`, it is the first entry of its key, and it is live. -/
+theorem fwdCore_sorted (now : Nat) (L : List Ent) (hs : SortedEnts L) (lk : Option Bytes)
+    (hlk : ∀ k, lk = some k → ∀ e ∈ L, cmpBytes k e.key ≠ .gt) :
+    fwdCore now lk L =
+      L.filter (fun e => (lk != some e.key) && (L.find? (fun x => x.key == e.key) == some e) &&
+        !deletedOrExpired e.emeta e.exp now) := by
+  induction L generalizing lk with
+  | nil => rfl
+  | cons e r ih =>
+    have hsr := hs.tail
+    -- entries of `r` of the same key as `e` are not first; others look `e` over
+    have hfind : ∀ x ∈ r, ((e :: r).find? (fun y => y.key == x.key) == some x) =
+        ((x.key != e.key) && (r.find? (fun y => y.key == x.key) == some x)) := by
+      intro x hx
+      simp only [List.find?_cons]
+      by_cases hk : e.key = x.key
+      · have hne : e ≠ x := entCmp_lt_ne (hs.head_lt x hx)
+        simp [hk, hne]
+      · have hk' : (e.key == x.key) = false := by simpa using hk
+        have hk2 : (x.key != e.key) = true := by simpa using fun h => hk h.symm
+        simp [hk', hk2]
+    have hge : ∀ x ∈ r, cmpBytes e.key x.key ≠ .gt := fun x hx => entCmp_lt_key_le (hs.head_lt x hx)
+    unfold fwdCore
+    by_cases h1 : (lk == some e.key) = true
+    · have h1' : lk = some e.key := by simpa using h1
+      simp only [h1, if_true]
+      rw [ih hsr lk (fun k hk x hx => hlk k hk x (List.mem_cons_of_mem _ hx))]
+      simp only [List.filter_cons, h1', bne_self_eq_false, Bool.false_and, Bool.false_eq_true, if_false]
+      apply List.filter_congr
+      intro x hx
+      rw [hfind x hx]
+      by_cases hxe : x.key = e.key
+      · simp [hxe]
+      · have : (x.key != e.key) = true := by simpa using hxe
+        simp [this]
+    · simp only [h1, Bool.false_eq_true, if_false]
+      have h1' : (lk != some e.key) = true := by simpa [bne] using h1
+      have hself : ((e :: r).find? (fun y => y.key == e.key) == some e) = true := by simp
+      have hrest : fwdCore now (some e.key) r =
+          r.filter (fun x => (lk != some x.key) && ((e :: r).find? (fun y => y.key == x.key) == some x) &&
+            !deletedOrExpired x.emeta x.exp now) := by
+        rw [ih hsr (some e.key) (fun k hk x hx => by cases hk; exact hge x hx)]
+        apply List.filter_congr
+        intro x hx
+        rw [hfind x hx]
+        by_cases hxe : x.key = e.key
+        · simp [hxe]
+        · have h2 : (x.key != e.key) = true := by simpa using hxe
+          have h3 : (some e.key != some x.key) = true := by simpa using fun h => hxe h.symm
+          have h4 : (lk != some x.key) = true := by
+            cases hlkc : lk with
+            | none => rfl
+            | some k =>
+              simp only [bne_iff_ne, ne_eq, Option.some.injEq]
+              intro hkx
+              have g1 := hlk k hlkc e (List.mem_cons_self ..)
+              rw [hkx] at g1
+              exact hxe (cmpBytes_antisymm g1 (hge x hx))
+          simp [h2, h3, h4]
+      by_cases h2 : deletedOrExpired e.emeta e.exp now = true
+      · simp only [h2, if_true, List.filter_cons, h1', hself, Bool.true_and, Bool.not_true,
+          Bool.false_eq_true, if_false]
+        exact hrest
+      · simp only [h2, Bool.false_eq_true, if_false, List.filter_cons, h1', hself, Bool.true_and,
+          Bool.not_false, if_true]
+        rw [hrest]
+
+
+/-- on a sorted list the first entry of key `k` is the one with the largest version -/
+theorem find?_key_sorted_iff {L : List Ent} (hs : SortedEnts L) (k : Bytes) (x : Ent) :
+    L.find? (fun y => y.key == k) = some x ↔
+      x ∈ L ∧ x.key = k ∧ ∀ y ∈ L, y.key = k → y.ver ≤ x.ver := by
+  induction L with
+  | nil => simp
+  | cons a r ih =>
+    rw [List.find?_cons]
+    by_cases hk : a.key = k
+    · have hk' : (a.key == k) = true := by simpa using hk
+      simp only [hk', Option.some.injEq]
+      constructor
+      · rintro rfl
+        refine ⟨List.mem_cons_self .., hk, ?_⟩
+        intro y hy hyk
+        rcases List.mem_cons.mp hy with rfl | hy
+        · exact Nat.le_refl _
+        · have := (entCmp_lt_same_key (hk.trans hyk.symm)).mp (hs.head_lt y hy)
+          omega
+      · rintro ⟨hx, hxk, hmax⟩
+        rcases List.mem_cons.mp hx with rfl | hx
+        · rfl
+        · have h1 := (entCmp_lt_same_key (hk.trans hxk.symm)).mp (hs.head_lt x hx)
+          have h2 := hmax a (List.mem_cons_self ..) hk
+          omega
+    · have hk' : (a.key == k) = false := by simpa using hk
+      simp only [hk']
+      rw [ih hs.tail]
+      constructor
+      · rintro ⟨hx, hxk, hmax⟩
+        refine ⟨List.mem_cons_of_mem _ hx, hxk, ?_⟩
+        intro y hy hyk
+        rcases List.mem_cons.mp hy with rfl | hy
+        · exact absurd hyk hk
+        · exact hmax y hy hyk
+      · rintro ⟨hx, hxk, hmax⟩
+        rcases List.mem_cons.mp hx with rfl | hx
+        · exact absurd hxk hk
+        · exact ⟨hx, hxk, fun y hy hyk => hmax y (List.mem_cons_of_mem _ hy) hyk⟩
+
+theorem inWindow_le {readTs since : Nat} {e : Ent} (h : inWindow readTs since e = true) :
+    e.ver ≤ readTs := by
+  simp only [inWindow, Bool.and_eq_true, decide_eq_true_eq] at h
+  exact h.1
+
+/-- same key, inside the window below: a newer version `≤ readTs` is inside the window too -/
+theorem inWindow_newer {readTs since : Nat} {e n : Ent} (h : inWindow readTs since e = true)
+    (hv : e.ver ≤ n.ver) (hn : n.ver ≤ readTs) : inWindow readTs since n = true := by
+  simp only [inWindow, Bool.and_eq_true, decide_eq_true_eq, Bool.or_eq_true, beq_iff_eq] at h ⊢
+  refine ⟨hn, ?_⟩
+  rcases h.2 with h2 | h2
+  · exact .inl h2
+  · exact .inr (by omega)
+
+/-- members of the seek-cut of a sorted stream (forward) -/
+theorem mem_seekFrom_fwd {merged : List Ent} (hs : SortedEnts merged) (readTs : Nat) (sk : Bytes)
+    (x : Ent) :
+    x ∈ seekFrom merged false readTs sk ↔
+      x ∈ merged ∧ (sk.isEmpty = true ∨ kvCmp x.key x.ver sk readTs ≠ .lt) := by
+  unfold seekFrom
+  by_cases he : sk.isEmpty = true
+  · simp [he]
+  · simp only [he, Bool.false_eq_true, if_false, Bool.not_false, if_true, false_or]
+    rw [mem_dropWhile_of_pairwise hs]
+    · simp
+    · intro a b hab hb
+      simp only [beq_iff_eq] at hb ⊢
+      exact kvCmp_lt_trans hab hb
+
+
+theorem entCmp_total_mem {m : List Ent} (hs : SortedEnts m) {a b : Ent} (ha : a ∈ m) (hb : b ∈ m) :
+    entCmp a b = .lt ∨ a = b ∨ entCmp b a = .lt := by
+  rcases entCmp_trichotomy a b with h | ⟨h1, h2⟩ | h
+  · exact .inl h
+  · exact .inr (.inl (hs.eq_of_key_ver ha hb h1 h2))
+  · exact .inr (.inr h)
+
+/-- **forward scan = specification** (list level): on a sorted merged stream, the `parseItem`
+    loop over the `Seek` position yields exactly `specScanFwd`. The seek key must have the
+    iterator's prefix (always true for `Rewind`, where the seek key *is* the prefix). -/
+theorem fwdCore_spec (merged : List Ent) (hs : SortedEnts merged) (readTs since now : Nat)
+    (pfx sk : Bytes) (hsk : pfx.isPrefixOf sk = true) :
+    fwdCore now none (((seekFrom merged false readTs sk).takeWhile
+        (fun e => pfx.isPrefixOf e.key)).filter (inWindow readTs since)) =
+      specScanFwd merged readTs since now pfx sk := by
+  have hirr : ∀ a : Ent, ¬ entCmp a a = .lt := entCmp_lt_irrefl
+  have htr : ∀ a b c : Ent, entCmp a b = .lt → entCmp b c = .lt → entCmp a c = .lt :=
+    fun _ _ _ => entCmp_lt_trans
+  -- the pieces
+  have hcutsub : (seekFrom merged false readTs sk).Sublist merged := by
+    unfold seekFrom
+    split
+    · exact List.Sublist.refl _
+    · exact List.dropWhile_sublist _
+  have hcut : SortedEnts (seekFrom merged false readTs sk) := hs.sublist hcutsub
+  have hXsub : ((seekFrom merged false readTs sk).takeWhile (fun e => pfx.isPrefixOf e.key)).Sublist merged :=
+    (List.takeWhile_sublist _).trans hcutsub
+  have hLsub : (((seekFrom merged false readTs sk).takeWhile (fun e => pfx.isPrefixOf e.key)).filter
+      (inWindow readTs since)).Sublist merged := List.filter_sublist.trans hXsub
+  have hL : SortedEnts (((seekFrom merged false readTs sk).takeWhile
+      (fun e => pfx.isPrefixOf e.key)).filter (inWindow readTs since)) := hs.sublist hLsub
+  have hW : SortedEnts (merged.filter (inWindow readTs since)) := hs.filter _
+  have hcut' : SortedEnts (merged.dropWhile (fun e => cmpBytes e.key sk == .lt)) :=
+    hs.sublist (List.dropWhile_sublist _)
+  rw [fwdCore_sorted now _ hL none (by intro k hk; cases hk)]
+  unfold specScanFwd
+  apply sublist_ext_of_pairwise hirr hs (List.filter_sublist.trans hLsub)
+    (List.filter_sublist.trans ((List.takeWhile_sublist _).trans (List.dropWhile_sublist _)))
+  intro x
+  -- membership in the cut lists
+  have memX : ∀ z, z ∈ (seekFrom merged false readTs sk).takeWhile (fun e => pfx.isPrefixOf e.key) ↔
+      (z ∈ merged ∧ (sk.isEmpty = true ∨ kvCmp z.key z.ver sk readTs ≠ .lt)) ∧
+      ∀ y, (y ∈ merged ∧ (sk.isEmpty = true ∨ kvCmp y.key y.ver sk readTs ≠ .lt)) →
+        (y = z ∨ entCmp y z = .lt) → pfx.isPrefixOf y.key = true := by
+    intro z
+    rw [mem_takeWhile_of_pairwise hirr htr hcut, mem_seekFrom_fwd hs]
+    constructor
+    · rintro ⟨h1, h2⟩
+      exact ⟨h1, fun y hy => h2 y ((mem_seekFrom_fwd hs readTs sk y).mpr hy)⟩
+    · rintro ⟨h1, h2⟩
+      exact ⟨h1, fun y hy => h2 y ((mem_seekFrom_fwd hs readTs sk y).mp hy)⟩
+  have memX' : ∀ z, z ∈ (merged.dropWhile (fun e => cmpBytes e.key sk == .lt)).takeWhile
+        (fun e => pfx.isPrefixOf e.key) ↔
+      (z ∈ merged ∧ cmpBytes z.key sk ≠ .lt) ∧
+      ∀ y, (y ∈ merged ∧ cmpBytes y.key sk ≠ .lt) → (y = z ∨ entCmp y z = .lt) →
+        pfx.isPrefixOf y.key = true := by
+    intro z
+    have hmd : ∀ y, y ∈ merged.dropWhile (fun e => cmpBytes e.key sk == .lt) ↔
+        (y ∈ merged ∧ cmpBytes y.key sk ≠ .lt) := by
+      intro y
+      rw [mem_dropWhile_of_pairwise hs]
+      · simp
+      · intro a b hab hb
+        simp only [beq_iff_eq] at hb ⊢
+        have := entCmp_lt_key_le hab
+        cases hc : cmpBytes a.key b.key with
+        | lt => exact cmpBytes_lt_trans hc hb
+        | eq => rw [(cmpBytes_eq_iff _ _).mp hc]; exact hb
+        | gt => exact absurd hc this
+    rw [mem_takeWhile_of_pairwise hirr htr hcut', hmd]
+    constructor
+    · rintro ⟨h1, h2⟩; exact ⟨h1, fun y hy => h2 y ((hmd y).mpr hy)⟩
+    · rintro ⟨h1, h2⟩; exact ⟨h1, fun y hy => h2 y ((hmd y).mp hy)⟩
+  -- relation between the two cut conditions
+  have c2_imp_c1 : ∀ y : Ent, (sk.isEmpty = true ∨ kvCmp y.key y.ver sk readTs ≠ .lt) →
+      cmpBytes y.key sk ≠ .lt := by
+    intro y h hc
+    rcases h with h | h
+    · have : sk = [] := by simpa using h
+      subst this
+      cases hyk : y.key <;> rw [hyk] at hc <;> simp [cmpBytes] at hc
+    · exact h ((kvCmp_lt_iff ..).mpr (.inl hc))
+  have c1_imp_c2 : ∀ y : Ent, y.ver ≤ readTs → cmpBytes y.key sk ≠ .lt →
+      (sk.isEmpty = true ∨ kvCmp y.key y.ver sk readTs ≠ .lt) := by
+    intro y hv h
+    right
+    intro hc
+    rcases (kvCmp_lt_iff ..).mp hc with hc | hc
+    · exact h hc
+    · omega
+  have c1_not_c2_pfx : ∀ y : Ent, cmpBytes y.key sk ≠ .lt →
+      ¬ (sk.isEmpty = true ∨ kvCmp y.key y.ver sk readTs ≠ .lt) → pfx.isPrefixOf y.key = true := by
+    intro y h1 h2
+    simp only [not_or, ne_eq, Decidable.not_not] at h2
+    rcases (kvCmp_lt_iff ..).mp h2.2 with hc | hc
+    · exact absurd hc h1
+    · rw [hc.1]; exact hsk
+  simp only [List.mem_filter, Bool.and_eq_true, beq_iff_eq, Bool.not_eq_true', bne_iff_ne, ne_eq,
+    yieldable, decide_eq_true_eq]
+  constructor
+  · -- model ⊆ spec
+    rintro ⟨⟨hxX, hxw⟩, ⟨-, hfind⟩, hlive⟩
+    obtain ⟨⟨hxm, hxc2⟩, hxp⟩ := (memX x).mp hxX
+    have hxL : x ∈ ((seekFrom merged false readTs sk).takeWhile (fun e => pfx.isPrefixOf e.key)).filter
+        (inWindow readTs since) := List.mem_filter.mpr ⟨hxX, hxw⟩
+    obtain ⟨-, -, hmax⟩ := (find?_key_sorted_iff hL x.key x).mp hfind
+    refine ⟨(memX' x).mpr ⟨⟨hxm, c2_imp_c1 x hxc2⟩, ?_⟩, ?_, hlive⟩
+    · intro y hy hyx
+      by_cases hyc : (sk.isEmpty = true ∨ kvCmp y.key y.ver sk readTs ≠ .lt)
+      · exact hxp y ⟨hy.1, hyc⟩ hyx
+      · exact c1_not_c2_pfx y hy.2 hyc
+    · unfold newestVisible
+      rw [newestLE_sorted_some_iff hW]
+      refine ⟨List.mem_filter.mpr ⟨hxm, hxw⟩, rfl, inWindow_le hxw, ?_⟩
+      intro y hy hyk _
+      obtain ⟨hym, hyw⟩ := List.mem_filter.mp hy
+      apply hmax y _ hyk
+      apply List.mem_filter.mpr ⟨?_, hyw⟩
+      have hyc2 : (sk.isEmpty = true ∨ kvCmp y.key y.ver sk readTs ≠ .lt) := by
+        apply c1_imp_c2 y (inWindow_le hyw)
+        rw [hyk]; exact c2_imp_c1 x hxc2
+      rw [memX]
+      refine ⟨⟨hym, hyc2⟩, ?_⟩
+      intro z hz hzy
+      have hxpfx : pfx.isPrefixOf x.key = true := hxp x ⟨hxm, hxc2⟩ (.inl rfl)
+      rcases entCmp_total_mem hs hz.1 hxm with h | h | h
+      · exact hxp z hz (.inr h)
+      · exact hxp z hz (.inl h)
+      · -- x < z ≤ y, same key as x
+        have hzk : z.key = x.key := by
+          rcases hzy with rfl | hzy
+          · exact hyk
+          · exact entCmp_key_squeeze h hzy hyk.symm
+        rw [hzk]; exact hxpfx
+  · -- spec ⊆ model
+    rintro ⟨hxX', hnew, hlive⟩
+    obtain ⟨⟨hxm, hxc1⟩, hxp⟩ := (memX' x).mp hxX'
+    unfold newestVisible at hnew
+    obtain ⟨hxW, -, hxv, hmax⟩ := (newestLE_sorted_some_iff hW).mp hnew
+    have hxw : inWindow readTs since x = true := (List.mem_filter.mp hxW).2
+    have hxc2 := c1_imp_c2 x hxv hxc1
+    have hxX : x ∈ (seekFrom merged false readTs sk).takeWhile (fun e => pfx.isPrefixOf e.key) := by
+      rw [memX]
+      exact ⟨⟨hxm, hxc2⟩, fun y hy hyx => hxp y ⟨hy.1, c2_imp_c1 y hy.2⟩ hyx⟩
+    refine ⟨⟨hxX, hxw⟩, ⟨by simp, ?_⟩, hlive⟩
+    rw [find?_key_sorted_iff hL]
+    refine ⟨List.mem_filter.mpr ⟨hxX, hxw⟩, rfl, ?_⟩
+    intro y hy hyk
+    obtain ⟨hyX, hyw⟩ := List.mem_filter.mp hy
+    exact hmax y (List.mem_filter.mpr ⟨hXsub.subset hyX, hyw⟩) hyk (inWindow_le hyw)
+
+
+/-! ### reverse scan -/
+
+/-- descending order of the reversed stream -/
+def SortedDesc (l : List Ent) : Prop := l.Pairwise (fun a b => entCmp b a = .lt)
+
+theorem sortedDesc_reverse {l : List Ent} (h : SortedEnts l) : SortedDesc l.reverse := by
+  unfold SortedDesc
+  rw [List.pairwise_reverse]
+  exact h
+
+theorem SortedDesc.sublist {l l' : List Ent} (h : SortedDesc l) (hs : l'.Sublist l) : SortedDesc l' :=
+  List.Pairwise.sublist hs h
+
+theorem SortedDesc.tail {e : Ent} {l : List Ent} (h : SortedDesc (e :: l)) : SortedDesc l :=
+  (List.pairwise_cons.mp h).2
+
+theorem SortedDesc.head_gt {e : Ent} {l : List Ent} (h : SortedDesc (e :: l)) :
+    ∀ x ∈ l, entCmp x e = .lt := (List.pairwise_cons.mp h).1
+
+/-- the reverse `parseItem`/FILL loop as a position-based filter: an entry of the descending
+    stream is yielded iff it is inside the window, live, and no later (= newer) entry of the same
+    key has a version `≤ readTs`. -/
+def revCore (readTs since now : Nat) : List Ent → List Ent
+  | [] => []
+  | e :: r =>
+    if inWindow readTs since e && !deletedOrExpired e.emeta e.exp now &&
+        !(r.any (fun n => n.key == e.key && decide (n.ver ≤ readTs))) then e :: revCore readTs since now r
+    else revCore readTs since now r
+
+theorem parseItems_rev (o : IterOpts) (readTs now : Nat) (hall : o.allVersions = false)
+    (hrev : o.reverse = true) (fuel : Nat) :
+    (∀ e rest, SortedDesc (e :: rest) → NoHidden o (e :: rest) → inWindow readTs o.sinceTs e = true →
+        2 * rest.length + 2 ≤ fuel →
+        parseItems.revFill o readTs now fuel e rest = revCore readTs o.sinceTs now (e :: rest)) ∧
+    (∀ lk l, SortedDesc l → NoHidden o l → 2 * l.length + 1 ≤ fuel →
+        parseItems o readTs now fuel lk l = revCore readTs o.sinceTs now l) := by
+  induction fuel with
+  | zero =>
+    constructor
+    · intro e rest _ _ _ hf; omega
+    · intro lk l _ _ hf
+      have : l = [] := by cases l <;> simp at hf ⊢
+      subst this; rfl
+  | succ f ih =>
+    obtain ⟨ih1, ih2⟩ := ih
+    constructor
+    · intro e rest hs hn hw hf
+      cases rest with
+      | nil =>
+        rw [parseItems.revFill.eq_2]
+        by_cases hx : deletedOrExpired e.emeta e.exp now = true
+        · simp only [hx, if_true, revCore, Bool.not_true, Bool.and_false, Bool.false_and,
+            Bool.false_eq_true, if_false]
+          cases f <;> simp [parseItems]
+        · have hx' : deletedOrExpired e.emeta e.exp now = false := by simpa using hx
+          simp [hx', revCore, hw]
+      | cons n rest' =>
+        unfold parseItems.revFill
+        have hne : entCmp n e = .lt := hs.head_gt n (List.mem_cons_self ..)
+        by_cases hx : deletedOrExpired e.emeta e.exp now = true
+        · simp only [hx, if_true]
+          rw [ih2 none (n :: rest') hs.tail hn.tail (by simp at hf ⊢; omega)]
+          simp [revCore, hx]
+        · have hx' : deletedOrExpired e.emeta e.exp now = false := by simpa using hx
+          simp only [hx', Bool.false_eq_true, if_false]
+          by_cases hc : (decide (n.ver ≤ readTs) && n.key == e.key) = true
+          · simp only [hc, if_true]
+            have hc' : n.ver ≤ readTs ∧ n.key = e.key := by simpa using hc
+            have hnv : e.ver < n.ver := (entCmp_lt_same_key hc'.2).mp hne
+            have hwn : inWindow readTs o.sinceTs n = true := inWindow_newer hw (by omega) hc'.1
+            rw [ih1 n rest' hs.tail hn.tail hwn (by simp at hf ⊢; omega)]
+            have hany : ((n :: rest').any (fun m => m.key == e.key && decide (m.ver ≤ readTs))) = true := by
+              simp [hc'.1, hc'.2]
+            conv => rhs; unfold revCore
+            simp only [hany, Bool.not_true, Bool.and_false, Bool.false_eq_true, if_false]
+          · simp only [hc, Bool.false_eq_true, if_false]
+            rw [ih2 none (n :: rest') hs.tail hn.tail (by simp at hf ⊢; omega)]
+            have hany : ((n :: rest').any (fun m => m.key == e.key && decide (m.ver ≤ readTs))) = false := by
+              rw [List.any_eq_false]
+              intro m hm hmc
+              simp only [Bool.and_eq_true, beq_iff_eq, decide_eq_true_eq] at hmc
+              rcases List.mem_cons.mp hm with rfl | hm'
+              · apply hc; simp [hmc.1, hmc.2]
+              · have hmn : entCmp m n = .lt := hs.tail.head_gt m hm'
+                have hnk : n.key = m.key := entCmp_key_squeeze hmn hne hmc.1
+                have hmv : n.ver < m.ver := (entCmp_lt_same_key hnk.symm).mp hmn
+                apply hc
+                simp only [Bool.and_eq_true, decide_eq_true_eq, beq_iff_eq]
+                exact ⟨by omega, hnk.trans hmc.1⟩
+            conv => rhs; unfold revCore
+            simp only [hw, hx', hany, Bool.not_false, Bool.and_self, if_true]
+    · intro lk l hs hn hf
+      cases l with
+      | nil => simp [parseItems, revCore]
+      | cons e rest =>
+        rw [parseItems.eq_3]
+        simp only [hn.head, skip_eq_not_inWindow, hall, hrev, Bool.false_eq_true, if_false,
+          Bool.not_true, Bool.false_and]
+        by_cases hw : inWindow readTs o.sinceTs e = true
+        · simp only [hw, Bool.not_true, Bool.false_eq_true, if_false]
+          exact ih1 e rest hs hn hw (by simp at hf ⊢; omega)
+        · simp only [hw, Bool.not_false, if_true]
+          rw [ih2 lk rest hs.tail hn.tail (by simp at hf ⊢; omega)]
+          have hw' : inWindow readTs o.sinceTs e = false := by simpa using hw
+          simp [revCore, hw']
+
+
+theorem seekFrom_rev_eq (merged : List Ent) (readTs : Nat) (sk : Bytes) :
+    seekFrom merged true readTs sk =
+      (if sk.isEmpty then merged.reverse
+       else merged.reverse.dropWhile (fun e => cmpBytes e.key sk == .gt)) := by
+  unfold seekFrom
+  have : (fun e : Ent => kvCmp e.key e.ver sk 0 == Ordering.gt) =
+      (fun e : Ent => cmpBytes e.key sk == Ordering.gt) := by
+    funext e
+    have h := kvCmp_gt_iff e.key e.ver sk 0
+    simp only [Nat.not_lt_zero, and_false, or_false] at h
+    cases h1 : kvCmp e.key e.ver sk 0 <;> cases h2 : cmpBytes e.key sk <;> simp_all
+  simp only [Bool.not_true, Bool.false_eq_true, if_false, this, if_true]
+
+/-- **reverse scan = specification** (list level). -/
+theorem revCore_spec (merged : List Ent) (hs : SortedEnts merged) (readTs since now : Nat) (sk : Bytes) :
+    revCore readTs since now (seekFrom merged true readTs sk) = specScanRev merged readTs since now sk := by
+  rw [seekFrom_rev_eq]
+  unfold specScanRev
+  generalize hR : (if sk.isEmpty then merged.reverse
+       else merged.reverse.dropWhile (fun e => cmpBytes e.key sk == .gt)) = R
+  have hdesc : SortedDesc merged.reverse := sortedDesc_reverse hs
+  have hRsub : R.Sublist merged.reverse := by
+    rw [← hR]; split
+    · exact List.Sublist.refl _
+    · exact List.dropWhile_sublist _
+  have hRd : SortedDesc R := hdesc.sublist hRsub
+  have hRm : ∀ x ∈ R, x ∈ merged := fun x hx => List.mem_reverse.mp (hRsub.subset hx)
+  -- `R` is closed under "same key"
+  have hclosed : ∀ x ∈ R, ∀ y ∈ merged, y.key = x.key → y ∈ R := by
+    intro x hx y hy hk
+    rw [← hR] at hx ⊢
+    by_cases he : sk.isEmpty = true
+    · simp only [he, if_true]; exact List.mem_reverse.mpr hy
+    · simp only [he, Bool.false_eq_true, if_false] at hx ⊢
+      have hp : ∀ a b : Ent, entCmp b a = .lt → (cmpBytes b.key sk == .gt) = true →
+          (cmpBytes a.key sk == .gt) = true := by
+        intro a b hab hb
+        simp only [beq_iff_eq] at hb ⊢
+        have h1 := entCmp_lt_key_le hab
+        rw [cmpBytes_gt_iff_lt] at hb ⊢
+        cases hc : cmpBytes b.key a.key with
+        | lt => exact cmpBytes_lt_trans hb hc
+        | eq => rw [← (cmpBytes_eq_iff _ _).mp hc]; exact hb
+        | gt => exact absurd hc h1
+      rw [mem_dropWhile_of_pairwise hdesc _ hp] at hx ⊢
+      exact ⟨List.mem_reverse.mpr hy, by rw [hk]; exact hx.2⟩
+  have hW : SortedEnts (merged.filter (inWindow readTs since)) := hs.filter _
+  have key : ∀ suf pre, R = pre ++ suf →
+      revCore readTs since now suf = suf.filter (yieldable merged readTs since now) := by
+    intro suf
+    induction suf with
+    | nil => intro pre _; rfl
+    | cons e r ih =>
+      intro pre hpre
+      have ihr := ih (pre ++ [e]) (by rw [hpre]; simp)
+      have heR : e ∈ R := by rw [hpre]; simp
+      have hpw := hRd
+      rw [hpre, SortedDesc, List.pairwise_append] at hpw
+      obtain ⟨-, hpw2, hpw3⟩ := hpw
+      have hr_lt : ∀ n ∈ r, entCmp n e = .lt := (List.pairwise_cons.mp hpw2).1
+      have hpre_gt : ∀ y ∈ pre, entCmp e y = .lt := fun y hy => hpw3 y hy e (List.mem_cons_self ..)
+      have hequiv : (inWindow readTs since e && !deletedOrExpired e.emeta e.exp now &&
+          !(r.any (fun n => n.key == e.key && decide (n.ver ≤ readTs)))) =
+          yieldable merged readTs since now e := by
+        rw [Bool.eq_iff_iff]
+        simp only [yieldable, Bool.and_eq_true, Bool.not_eq_true', decide_eq_true_eq, List.any_eq_false,
+          beq_iff_eq, not_and]
+        unfold newestVisible
+        rw [newestLE_sorted_some_iff hW]
+        constructor
+        · rintro ⟨⟨hw, hlive⟩, hno⟩
+          refine ⟨⟨List.mem_filter.mpr ⟨hRm e heR, hw⟩, rfl, inWindow_le hw, ?_⟩, hlive⟩
+          intro y hy hyk hyv
+          obtain ⟨hym, -⟩ := List.mem_filter.mp hy
+          have hyR := hclosed e heR y hym hyk
+          rw [hpre] at hyR
+          rcases List.mem_append.mp hyR with h | h
+          · have := (entCmp_lt_same_key hyk.symm).mp (hpre_gt y h)
+            omega
+          · rcases List.mem_cons.mp h with rfl | h
+            · exact Nat.le_refl _
+            · exact absurd hyv (hno y h hyk)
+        · rintro ⟨⟨heW, -, hev, hmax⟩, hlive⟩
+          have hw : inWindow readTs since e = true := (List.mem_filter.mp heW).2
+          refine ⟨⟨hw, hlive⟩, ?_⟩
+          intro n hn hnk hnv
+          have hlt : e.ver < n.ver := (entCmp_lt_same_key hnk).mp (hr_lt n hn)
+          have hnW : n ∈ merged.filter (inWindow readTs since) :=
+            List.mem_filter.mpr ⟨hRm n (by rw [hpre]; simp [hn]), inWindow_newer hw (by omega) hnv⟩
+          have := hmax n hnW hnk hnv
+          omega
+      unfold revCore
+      rw [hequiv, ihr, List.filter_cons]
+  exact key R [] rfl
+
+
+/-- keys with a given prefix form an interval of the byte order -/
+theorem prefix_convex (p a b c : Bytes) (ha : p.isPrefixOf a = true) (hc : p.isPrefixOf c = true)
+    (hab : cmpBytes a b ≠ .gt) (hbc : cmpBytes b c ≠ .gt) : p.isPrefixOf b = true := by
+  induction p generalizing a b c with
+  | nil => simp
+  | cons x xs ih =>
+    cases a with
+    | nil => simp at ha
+    | cons a0 as =>
+      cases c with
+      | nil => simp at hc
+      | cons c0 cs =>
+        simp only [List.isPrefixOf_cons_cons, Bool.and_eq_true, beq_iff_eq] at ha hc
+        obtain ⟨ha0, ha⟩ := ha
+        obtain ⟨hc0, hc⟩ := hc
+        subst ha0; subst hc0
+        cases b with
+        | nil => simp [cmpBytes] at hab
+        | cons b0 bs =>
+          simp only [cmpBytes] at hab hbc
+          have h1 : ¬ b0.toNat < x.toNat := by
+            intro h; rw [if_neg (by omega), if_pos h] at hab; exact hab rfl
+          have h2 : ¬ x.toNat < b0.toNat := by
+            intro h; rw [if_neg (by omega), if_pos h] at hbc; exact hbc rfl
+          have hb0 : b0 = x := UInt8.toNat_inj.mp (by omega)
+          subst hb0
+          simp only [Nat.lt_irrefl, if_false] at hab hbc
+          simp only [List.isPrefixOf_cons_cons, beq_self_eq_true, Bool.true_and]
+          exact ih as bs cs ha hc hab hbc
+
+/-- members of the forward specification -/
+theorem mem_specScanFwd {merged : List Ent} (hs : SortedEnts merged) (readTs since now : Nat)
+    (pfx sk : Bytes) (x : Ent) :
+    x ∈ specScanFwd merged readTs since now pfx sk ↔
+      x ∈ merged ∧ cmpBytes x.key sk ≠ .lt ∧
+      (∀ y ∈ merged, cmpBytes y.key sk ≠ .lt → (y = x ∨ entCmp y x = .lt) → pfx.isPrefixOf y.key = true) ∧
+      newestVisible merged readTs since x.key = some x ∧ deletedOrExpired x.emeta x.exp now = false := by
+  have hirr : ∀ a : Ent, ¬ entCmp a a = .lt := entCmp_lt_irrefl
+  have htr : ∀ a b c : Ent, entCmp a b = .lt → entCmp b c = .lt → entCmp a c = .lt :=
+    fun _ _ _ => entCmp_lt_trans
+  have hcut' : SortedEnts (merged.dropWhile (fun e => cmpBytes e.key sk == .lt)) :=
+    hs.sublist (List.dropWhile_sublist _)
+  have hmd : ∀ y, y ∈ merged.dropWhile (fun e => cmpBytes e.key sk == .lt) ↔
+      (y ∈ merged ∧ cmpBytes y.key sk ≠ .lt) := by
+    intro y
+    rw [mem_dropWhile_of_pairwise hs]
+    · simp
+    · intro a b hab hb
+      simp only [beq_iff_eq] at hb ⊢
+      have := entCmp_lt_key_le hab
+      cases hc : cmpBytes a.key b.key with
+      | lt => exact cmpBytes_lt_trans hc hb
+      | eq => rw [(cmpBytes_eq_iff _ _).mp hc]; exact hb
+      | gt => exact absurd hc this
+  unfold specScanFwd
+  simp only [List.mem_filter, yieldable, Bool.and_eq_true, decide_eq_true_eq, Bool.not_eq_true']
+  rw [mem_takeWhile_of_pairwise hirr htr hcut', hmd]
+  constructor
+  · rintro ⟨⟨⟨h1, h2⟩, h3⟩, h4, h5⟩
+    exact ⟨h1, h2, fun y hy hyc => h3 y ((hmd y).mpr ⟨hy, hyc⟩), h4, h5⟩
+  · rintro ⟨h1, h2, h3, h4, h5⟩
+    exact ⟨⟨⟨h1, h2⟩, fun y hy => h3 y ((hmd y).mp hy).1 ((hmd y).mp hy).2⟩, h4, h5⟩
+
+/-- members of the reverse specification -/
+theorem mem_specScanRev {merged : List Ent} (hs : SortedEnts merged) (readTs since now : Nat)
+    (sk : Bytes) (x : Ent) :
+    x ∈ specScanRev merged readTs since now sk ↔
+      x ∈ merged ∧ (sk.isEmpty = true ∨ cmpBytes x.key sk ≠ .gt) ∧
+      newestVisible merged readTs since x.key = some x ∧ deletedOrExpired x.emeta x.exp now = false := by
+  unfold specScanRev
+  simp only [List.mem_filter, yieldable, Bool.and_eq_true, decide_eq_true_eq, Bool.not_eq_true']
+  by_cases he : sk.isEmpty = true
+  · simp only [he, if_true, List.mem_reverse, true_or, true_and]
+  · simp only [he, Bool.false_eq_true, if_false, false_or]
+    have hdesc : SortedDesc merged.reverse := sortedDesc_reverse hs
+    have hp : ∀ a b : Ent, entCmp b a = .lt → (cmpBytes b.key sk == .gt) = true →
+        (cmpBytes a.key sk == .gt) = true := by
+      intro a b hab hb
+      simp only [beq_iff_eq] at hb ⊢
+      have h1 := entCmp_lt_key_le hab
+      rw [cmpBytes_gt_iff_lt] at hb ⊢
+      cases hc : cmpBytes b.key a.key with
+      | lt => exact cmpBytes_lt_trans hb hc
+      | eq => rw [← (cmpBytes_eq_iff _ _).mp hc]; exact hb
+      | gt => exact absurd hc h1
+    rw [mem_dropWhile_of_pairwise hdesc _ hp]
+    simp only [List.mem_reverse, beq_eq_false_iff_ne, ne_eq, and_assoc]
+
+/-- two yieldable entries of the same key are the same entry -/
+theorem yieldable_key_inj {merged : List Ent} {readTs since now : Nat} {a b : Ent}
+    (ha : yieldable merged readTs since now a = true) (hb : yieldable merged readTs since now b = true)
+    (hk : a.key = b.key) : a = b := by
+  simp only [yieldable, Bool.and_eq_true, decide_eq_true_eq] at ha hb
+  have := ha.1
+  rw [hk, hb.1] at this
+  exact (Option.some.inj this).symm
 
 end Badger
